@@ -748,6 +748,13 @@ def move_before_loop(source: str) -> str:
             if core.has_side_effect(node.value):
                 continue
 
+            # What is stored in an object may be changed by anything the loop calls
+            target_nodes = node.targets if isinstance(node, ast.Assign) else [node.target]
+            if any(
+                any(core.walk(target, (ast.Subscript, ast.Attribute))) for target in target_nodes
+            ):
+                continue
+
             # If targets are likely to be mutated in the loop, keep them in the loop.
             targets = tuple(name.id for name in parsing.assignment_targets(node))
             if any(core.walk(scope, ast.Call(func=ast.Attribute(value=ast.Name(id=targets))))):
